@@ -1,5 +1,5 @@
 (* Model/C03Run.v - case types and checker evaluated on harness-generated cases (C03) *)
-From ReqV Require Export Lib.Bytes Model.BodyFraming Model.StreamBody.
+From ReqV Require Export Lib.Bytes Lib.PackedBytes Model.BodyFraming Model.StreamBody Model.StreamWire.
 
 (* what the harness saw for one exchange: error from the call, or the call succeeded and
    io.ReadAll(resp.Body) ended with [e] after [dlen] bytes; [prefix_ok]: the Go side
@@ -39,7 +39,39 @@ Inductive h2_seen :=
 | H2SeenCallErr
 | H2SeenRead (e : h2err) (dlen : N) (prefix_ok : bool).
 
+Inductive h3_seen :=
+| H3SeenCallErr
+| H3SeenRead (e : h3wres) (dlen : N) (prefix_ok : bool).
+
+(* a DATA frame: minimal-length header (quicvarint.Append) announcing [declared], followed by
+   the next [got] payload bytes; or raw bytes *)
+Inductive h3seg := SegData (declared got : N) | SegRaw (b : bytes).
+
+Definition opt_bytes (o : option bytes) : bytes := match o with Some b => b | None => [] end.
+
+(* (wire bytes, the same script as StreamBody events, "the script has DATA frames only") *)
+Fixpoint h3_render_segs (segs : list h3seg) (sent : bytes) : bytes * list h3ev * bool :=
+  match segs with
+  | [] => ([], [], true)
+  | SegData n g :: r =>
+      let '(p, rest, _) := take_N g sent in
+      let '(w, evs, ok) := h3_render_segs r rest in
+      (opt_bytes (vi_append 0) ++ opt_bytes (vi_append n) ++ p ++ w, H3Data n p :: evs, ok)
+  | SegRaw b :: r =>
+      let '(w, evs, _) := h3_render_segs r sent in (b ++ w, evs, false)
+  end.
+
+Definition h3_term_event (e : h3end) : h3ev :=
+  match e with EndFin => H3Fin | EndReset => H3Reset | EndConnClose => H3ConnClose end.
+
 Inductive c03_case :=
+(* HTTP/3: declared length, "the stream ended before the response HEADERS frame was
+   complete", what the peer wrote behind that frame as segments (DATA frames take their
+   payload bytes, in order, from [sent]; anything else is given raw), how the stream ended,
+   all DATA payload bytes written, the number of bytes written (cross-check of the
+   rendering), what the caller saw, whether the follow-up was served by the same connection *)
+| H3Case (cl : option N) (no_headers : bool) (segs : list h3seg) (e : h3end)
+         (sent : bytes) (wire_len : N) (seen : h3_seen) (next_on_same_conn : bool)
 (* HTTP/2: declared length, END_STREAM on HEADERS, "connection ended before any response
    HEADERS", the stream's events, all DATA bytes sent, what the caller saw, and whether the
    follow-up request was served by the same connection *)
@@ -56,6 +88,25 @@ Inductive c03_case :=
 
 Definition c03_check (c : c03_case) : bool :=
   match c with
+  | H3Case cl no_headers segs e sent wire_len seen same =>
+      if no_headers then
+        (* a failed round trip also evicts the connection from the round tripper's cache *)
+        match seen with H3SeenCallErr => negb same | _ => false end
+      else
+        let '(wire, evs, evs_ok) := h3_render_segs segs sent in
+        let '(d, r) := h3_wire_read true cl wire e in
+        match seen with
+        | H3SeenCallErr => false
+        | H3SeenRead r' dlen pok =>
+            (N.of_nat (length wire) =? wire_len)%N
+            && h3wres_eqb r r' && (N.of_nat (length d) =? dlen)%N && pok
+            && bytes_eqb d (firstn_N dlen sent)
+            && Bool.eqb (h3_conn_usable e r) same
+            && (if evs_ok then
+                  let '(d', e') := h3_read true cl (evs ++ [h3_term_event e]) in
+                  bytes_eqb d' d && h3wres_eqb (W3 e') r
+                else true)
+        end
   | H2Case cl hdr_end no_headers evs sent seen same =>
       if no_headers then
         match seen with H2SeenCallErr => negb same | _ => false end
